@@ -1510,19 +1510,9 @@ val take_digits : n list -> n list * n list
 
 val quantifier_body : n list -> (n list * n list) option
 
-val lT4 : n list
+val is_quantifier_start : n list -> bool
 
-val gT4 : n list
-
-val mark_quantifiers : nat -> n list -> n list
-
-val escape_curly : n list -> n list
-
-val pstarts : n list -> n list -> bool
-
-val until_gt4 : n list -> n list -> (n list * n list) option
-
-val restore_quantifiers : nat -> n list -> n list
+val misused_rep : nat -> n list -> n list
 
 val misused_repetition : n list -> n list
 
